@@ -179,12 +179,16 @@ class ConversionSpecifier:
             if TypedValue(int).is_assignable(arg, ctx):
                 if isinstance(arg, KnownValue) and arg.val not in range(256):
                     yield f"%c requires an integer in range(256), not {arg}"
-            elif (self.is_bytes and TypedValue(bytes).is_assignable(arg, ctx)) or (
-                not self.is_bytes and TypedValue(str).is_assignable(arg, ctx)
-            ):
+            elif (
+                self.is_bytes
+                and (
+                    TypedValue(bytes).is_assignable(arg, ctx)
+                    or TypedValue(bytearray).is_assignable(arg, ctx)
+                )
+            ) or (not self.is_bytes and TypedValue(str).is_assignable(arg, ctx)):
                 if (
                     isinstance(arg, KnownValue)
-                    and isinstance(arg.val, (str, bytes))
+                    and isinstance(arg.val, (str, bytes, bytearray))
                     and len(arg.val) != 1
                 ):
                     yield f"%c requires a single character, not {arg}"
@@ -194,7 +198,10 @@ class ConversionSpecifier:
             self.is_bytes and self.conversion_type == "s"
         ):
             # in Python 3 bytes patterns, s is equivalent to b
-            if not TypedValue(bytes).is_assignable(arg, ctx):
+            if not (
+                TypedValue(bytes).is_assignable(arg, ctx)
+                or TypedValue(bytearray).is_assignable(arg, ctx)
+            ):
                 yield f"%{self.conversion_type} accepts only bytes, not {arg}"
         elif self.conversion_type == "s":
             # accepts anything
